@@ -134,7 +134,12 @@ def rand_result(r):
         ntr = r.choice([0, 1, 13, 13, 13, r.randrange(0, 14)])
         pack = list(range(52))
         r.shuffle(pack)
+        peek_at = r.randrange(0, 14) if r.random() < 0.4 else -1
         for k in range(ntr):
+            if k == peek_at:
+                # somebody looks at the history while the board is being played
+                # (a progress display, a checkpoint)
+                _ = len(play.history), [t.cards for t in play.history]
             play.record(k + 1, TH(Player(r.randrange(4) + 1),
                                   tuple(card(c) for c in pack[4 * k:4 * k + 4])))
         taken = r.randrange(0, 14)
